@@ -1,6 +1,19 @@
 import Driver.Util
+import Sqfs.Model.ImageParse
 namespace Driver.C03
-/-- stub: the model driver for C03 is not built yet -/
-def run (_args : List String) : IO Unit := do
-  IO.eprintln "sqfsmodel: model C03 not built yet"
+open Sqfs.Image
+
+partial def readAll (h : IO.FS.Stream) (acc : Array String) : IO (Array String) := do
+  let line ← h.getLine
+  if line.isEmpty then return acc
+  readAll h (acc.push line)
+
+def run (args : List String) : IO Unit := do
+  let out ← IO.getStdout
+  match args with
+  | ["parse"] =>
+    let d := Description.ofLines (← readAll (← IO.getStdin) #[])
+    for l in parseReport d do out.putStrLn l
+  | _ => IO.eprintln "usage: sqfsmodel c03 parse|validate|blockreq|<op lines>"
+
 end Driver.C03
